@@ -30,9 +30,10 @@ func TestVerif(t *testing.T) {
 	driver.Main(t, driver.Harness{
 		ID:    "C03",
 		Level: "model_checking",
-		Rule: "scenario = DAG (curated family + a referrer whose subject is a layer blob + one wide shape with 70 referrers of one manifest (default filter, Depth 0-1, four source kinds) + every U(4) shape with a subject or index) x start node x Depth 0..3 x filter (none | artifact-type regex per type present / no match / all | " +
+		Rule: "scenario = DAG (curated family + a referrer whose subject is a layer blob + indexes (one listing the node, one naming it as subject) that carry the filtered annotation + one wide shape with 70 referrers of one manifest (default filter, Depth 0-1, four source kinds) + every U(4) shape with a subject or index) x start node x Depth 0..3 x filter (none | artifact-type regex per type present / no match / all | " +
 			"annotation key, value regex) x source kind (memory with plain descriptors, memory with rich descriptors, OCI layout written then reopened read-write / fs.FS / tar, file store, remote Repository via Referrers API / via tag schema) x API; " +
 			"for the curated shapes on the plain memory source with Depth <= 1 additionally: x one node whose content the source lost (its Fetch answers not-found), every node in turn - a failed call is not judged, a successful one by the same oracle; " +
+			"ExtendedCopy without filter is also run into a destination that already holds every node (the given node must still be tagged); " +
 			"default schedule for the sweep, every schedule within D<=2 (map-order deviations O<=1 at the roots map) for multi-root shapes. Oracle: generator's inverse edge list. " +
 			"non-trivial = distinct scenario whose start node has at least one ancestor",
 		Assumptions: []string{
@@ -61,7 +62,8 @@ type scen struct {
 	src   string
 	api   string // extgraph | ext
 	conc  int
-	lost  int // 1+id of a node the source answers not-found for on Fetch (the source lost it); 0 = none
+	lost  int  // 1+id of a node the source answers not-found for on Fetch (the source lost it); 0 = none
+	full  bool // the destination already holds every node (an earlier copy of the same artifact): only the tag clause is judged
 }
 
 // lossy is a source that lists a node everywhere but no longer has its content.
@@ -81,6 +83,9 @@ func (s scen) name() string {
 	nm := fmt.Sprintf("%s/start=%s/depth=%d/filter=%v/src=%s/%s/conc=%d", s.d.Name, s.d.Nodes[s.start].Name, s.depth, s.f, s.src, s.api, s.conc)
 	if s.lost > 0 {
 		nm += "/source-lost=" + s.d.Nodes[s.lost-1].Name
+	}
+	if s.full {
+		nm += "/destination-already-complete"
 	}
 	return nm
 }
@@ -123,7 +128,7 @@ func jobs(tier string) []driver.Job {
 	var out []driver.Job
 	th := tier == "thorough"
 	// sweep over curated shapes (plus 'blob-subject': a referrer of a layer blob): everything
-	for _, d := range append(Curated(), Extra("blob-subject")) {
+	for _, d := range append(Curated(), Extra("blob-subject"), Extra("annotated-index")) {
 		d := d
 		out = append(out, driver.Job{Name: "sweep/" + d.Name, Run: func(c *driver.Ctx) {
 			for start := range d.Nodes {
@@ -142,6 +147,12 @@ func jobs(tier string) []driver.Job {
 								}
 								s := scen{d: d, start: start, depth: depth, f: f, src: sk, api: api, conc: 2}
 								one(c, s, explore.Bounds{}, nil)
+								if api == "ext" && f.kind == "" {
+									// the destination already holds the whole graph: ExtendedCopy still tags the given node
+									s.full = true
+									one(c, s, explore.Bounds{}, nil)
+									s.full = false
+								}
 								if sk == "memory-plain" && depth <= 1 {
 									// the same call on a source that lost one node's content: whatever
 									// the call reports, success still means a complete copy
@@ -197,7 +208,7 @@ func jobs(tier string) []driver.Job {
 					for _, f := range fs {
 						for _, depth := range []int{0, 1, 2} {
 							kinds := []string{"memory-plain"}
-							if depth == 0 || th {
+							if depth == 0 {
 								kinds = []string{"memory-plain", "memory-rich", "oci-rw"}
 							}
 							for _, sk := range kinds {
@@ -366,6 +377,15 @@ func (s scen) make() (func(), func(*vs.Result) *driver.Fail) {
 		src = lossy{src, d.Nodes[s.lost-1].Desc}
 	}
 	dst := memory.New()
+	if s.full {
+		all := make([]int, len(d.Nodes))
+		for i := range all {
+			all[i] = i
+		}
+		if err := Populate(dst, d, all); err != nil {
+			panic(err)
+		}
+	}
 	opts := oras.ExtendedCopyGraphOptions{Depth: s.depth}
 	opts.Concurrency = s.conc
 	switch s.f.kind {
@@ -398,6 +418,13 @@ func (s scen) make() (func(), func(*vs.Result) *driver.Fail) {
 		}
 		if err != nil {
 			return &driver.Fail{Sig: "fault-free extended copy failed", Detail: s.name() + ": " + err.Error()}
+		}
+		if s.full {
+			r, rerr := dst.Resolve(context.Background(), "ref")
+			if rerr != nil || r.Digest != startDesc.Digest || got.Digest != startDesc.Digest {
+				return &driver.Fail{Sig: "ExtendedCopy did not tag the given node", Detail: fmt.Sprintf("%s: resolve=%v err=%v returned=%v", s.name(), r, rerr, got)}
+			}
+			return nil
 		}
 		copied := map[int]bool{}
 		for _, n := range d.Nodes {
